@@ -64,7 +64,9 @@ def stepSchema (body : String) : String :=
         match readRoot a with
         | .panic _ => "reader-panic"
         | .err _ => "reader-error"
-        | .ok r => String.intercalate " ;; " (showRoot r :: r.properties.map showFlat)
+        | .ok r =>
+          let flats := (a.fields.zip r.properties).map fun (an, p) => showFlat an.protoName p
+          String.intercalate " ;; " (showRoot r :: flats)
 
 def step (line : String) : String :=
   let l := line.trimAscii.toString
